@@ -73,7 +73,7 @@ def unpackLoop (enc : Enc) (minLen : Nat) (auto : Bool) :
     | .panic => .panic
     | .ok (decoded, r) =>
       match decoded with
-      | [] => .panic   -- `decoded[0]` on an empty block
+      | [] => .err     -- an empty decoded block is rejected before `decoded[0]` is looked at
       | first :: _ =>
         if !auto || first.toNat < 128 then .ok (acc ++ decoded, read + r)
         else unpackLoop enc minLen auto fuel (rest.drop r) (acc ++ decoded) (read + r)
